@@ -26,6 +26,7 @@ GO_MEDIUM = ["go wtime 475 btime 475 movestogo 1", "go wtime 1100 btime 1100 mov
 GO_ODD = ["go ponder wtime 400 btime 400 movestogo 2", "go searchmoves e2e4 d2d4 wtime 300 btime 300 movestogo 1", "go   wtime 300   btime 300 movestogo 1",
           "go depth 3 wtime 200 btime 200 movestogo 1", "go wtime 300 frobnicate btime 300 movestogo 1", "go infinite wtime 200 btime 200 movestogo 1",
           "go\twtime 200 btime 200 movestogo 1", "go wtime 200 btime 200 movestogo 1 nodes", "go mate wtime 250 btime 250 movestogo 1"]
+LONG_GARBAGE = ["x" * 63 + "\u00e9" + "y" * 10, "\u00e9" * 40, "z" * 62 + "\u2654\u2654 tail", "debug " + "\u00df" * 70, "q" * 64 + "\u00e9"]
 GARBAGE = ["", " ", "   \t ", "xyzzy", "stop", "ponderhit", "debug on", "register later", "isreadyy", "go2", "ucinewgame now", "éè ♔",
            "a" * 3000, "uci", "setoption name Hash value 32", "setoption name Ponder value true", "ucinewgame", "flip", "d", "eval", "bench", "print",
            "Go", "POSITION startpos", "quit1", "%s%s%n", "\x07\x1b[0m", "go_", "isready ", "   "]
@@ -110,12 +111,12 @@ def plan(h, sessions):
                 st["wait_ms"] = min(max(e["slice_w"], e["slice_b"]), 6000) + 4000
 
 
-def run_sessions(binary, sessions, conc, trace_paths=None, pin=False):
+def run_sessions(binary, sessions, conc, trace_paths=None, pin=False, cwd=None):
     def one(i):
         tp = trace_paths[i] if trace_paths else None
         # schedule perturbation: both threads of the engine pinned to ONE core, shared with the other sessions pinned there
         prefix = ["taskset", "-c", str(i % 2)] if (pin and shutil.which("taskset")) else None
-        return U.run_script(binary, sessions[i], tp, prefix=prefix)
+        return U.run_script(binary, sessions[i], tp, prefix=prefix, cwd=cwd)
     with ThreadPoolExecutor(max_workers=conc) as ex:
         return list(ex.map(one, range(len(sessions))))
 
@@ -592,6 +593,15 @@ def c17(tier, replay):
         steps.append({"do": "quit"})
         sessions.append(steps)
         shard.append(rng.randint(0, 1000))
+    # with the engine's own logging switched on (setoption DebugLogLevel Info): every line is then also formatted into the log
+    log_sessions = []
+    for _ in range(6 if q else 40):
+        steps = [{"do": "send", "line": "setoption name DebugLogLevel value Info"}, {"do": "isready"}]
+        for _ in range(rng.randint(2, 4)):
+            steps.append({"do": "send", "line": rng.choice(LONG_GARBAGE + GARBAGE)})
+        steps += [{"do": "isready"}, {"do": "send", "line": rng.choice(live)}, {"do": "send", "line": rng.choice(LONG_GARBAGE)},
+                  {"do": "go", "line": rng.choice(GO_ZERO)}, {"do": "isready"}, {"do": "quit"}]
+        log_sessions.append(steps)
     # end of input after EVERY prefix of sessions that contain blank and garbage lines
     bases = []
     for _ in range(3 if q else 12):
@@ -601,10 +611,20 @@ def c17(tier, replay):
         for cut in range(len(b) + 1):
             sessions.append(b[:cut] + [{"do": "eof"}])
             shard.append(rng.randint(0, 1000))
+    for b_ in bases[:1]:
+        sessions.append([{"do": "send", "line": g} for g in LONG_GARBAGE] + [{"do": "isready"}, {"do": "quit"}])
+        shard.append(rng.randint(0, 1000))
     plan(h, sessions)
     logs = run_sessions(binary, sessions, 8)
     sample_session(run, sessions[1], logs[1])
     totals = validate(run, "C17", "sessions", logs, shard_of=lambda i: shard[i], scripts=sessions, binary=binary)
+    # logging sessions run in a scratch directory (the engine writes walleye_<pid>.log into its working directory)
+    scratch = R.trace_dir("C17-logcwd")
+    plan(h, log_sessions)
+    llogs = run_sessions(binary, log_sessions, 6, cwd=scratch)
+    ltot = validate(run, "C17", "logging", llogs, scripts=log_sessions, binary=binary)
+    run.cov["sessions_with_engine_logging_on"] = len(log_sessions)
+    shutil.rmtree(scratch, ignore_errors=True)
     if totals.get("exits", 0) < 10 or totals.get("readyoks", 0) < 10:
         raise ToolError("coverage hole: exits / readyok not observed")
     model_walleye(run, tier)
